@@ -11,6 +11,11 @@ use std::sync::Mutex;
 /// boundary. Global so that the watchdog thread needs no handle on the world.
 pub static HEARTBEAT: AtomicU64 = AtomicU64::new(0);
 
+/// number of model-seam events of all controllers so far: lets code without a handle on the
+/// world (the uniform problem wrapper) measure how many model calls one library call made,
+/// so that the harness's own follow-up queries are not mistaken for the library's
+pub static EVENTS: AtomicU64 = AtomicU64::new(0);
+
 /// what the worker is doing right now (for the watchdog's HANG record)
 pub static PHASE: Mutex<String> = Mutex::new(String::new());
 pub static CURRENT: Mutex<Option<crate::spec::Scenario>> = Mutex::new(None);
@@ -96,6 +101,7 @@ impl Ctl {
     /// Register a call; returns the fault to apply, if any.
     pub fn call(&self, kind: CallKind, alpha_hash: u64) -> Option<FaultAction> {
         beat();
+        EVENTS.fetch_add(1, Ordering::SeqCst);
         let mut g = self.lock();
         let seq = g.seq;
         g.seq += 1;
@@ -167,6 +173,10 @@ impl Ctl {
         let mut g = self.lock();
         g.armed = vec![None; rules.len()];
         g.rules = rules;
+    }
+    /// a marathon operation announces its (known, bounded) number of model calls
+    pub fn raise_cap(&self, extra: u64) {
+        self.lock().cap += extra;
     }
     pub fn set_overlap(&self, on: bool) {
         self.overlap.store(on, Ordering::SeqCst);
